@@ -1,6 +1,6 @@
 #!/usr/bin/env bash
 # Confirm an independently written property-breaking change and run the checks against it.
-#   seeded.sh <ID> [check ids...]     (expects /tmp/out-<ID> and the agent's worktree /tmp/wt-<ID>)
+#   seeded.sh <ID> [check ids...]     (expects /tmp/out-<ID> and the agent's worktree /tmp/wt-<ID>; <ID> may carry a suffix, e.g. C02b)
 set -u
 ID=$1; shift
 OUT=/tmp/out-$ID; WT=/tmp/wt-$ID; DST=/verif/seeded/$ID
@@ -47,15 +47,18 @@ PY
   exit 0
 fi
 cd /verif
+# the evidence files of the unchanged tree must survive runs against a changed tree
+EVBAK=$(mktemp -d /var/tmp/evidence.bak.XXXXXX); cp -a /verif/evidence/. "$EVBAK/"
 git -C /repo apply "$OUT/patch.diff" || { echo "patch does not apply to /repo"; exit 1; }
 res=""
-CHECKS="$*"; [ -z "$CHECKS" ] && CHECKS="$ID"
+CHECKS="$*"; [ -z "$CHECKS" ] && CHECKS="${ID:0:3}"
 for c in $CHECKS; do
   ./check "$c" quick >/tmp/out-$ID/check_$c.log 2>&1; rc=$?
   res="$res $c=$rc"
   grep -E "^(VIOLATION|  section)" /tmp/out-$ID/check_$c.log | head -2 | cut -c1-400
 done
 git -C /repo checkout -- .
+cp -a "$EVBAK/." /verif/evidence/; rm -rf "$EVBAK"
 echo "checks:$res"
 python3 - "$ID" "$with" "$without" "$suite" "$res" <<'PY'
 import json,sys
